@@ -86,3 +86,56 @@ end C01
 #print axioms C01.C01_tame
 #print axioms C01.C01_reachable
 #print axioms C01.C01_schema
+
+/-! ## nested documents: every checked node of a tree -/
+namespace C01
+open Msimple
+
+/-- a document: each node has its content-model template, its (reachable) child state and the
+    sub-documents of its children -/
+inductive Doc where
+  | node (p : Particle) (k : Kids) (subs : List Doc)
+
+mutual
+/-- `_final_checks` recursion: the node's own check, then every child's -/
+def Doc.checks : Doc → Bool
+  | .node p k subs => (required p k == []) && Doc.checksL subs
+def Doc.checksL : List Doc → Bool
+  | [] => true
+  | d :: ds => d.checks && Doc.checksL ds
+end
+
+mutual
+/-- every node is a Tame template in a reachable state -/
+def Doc.Good : Doc → Prop
+  | .node p k subs => isTame p = true ∧ Inv p k ∧ Doc.GoodL subs
+def Doc.GoodL : List Doc → Prop
+  | [] => True
+  | d :: ds => d.Good ∧ Doc.GoodL ds
+end
+
+mutual
+/-- every node's serialised child word is in its content model -/
+def Doc.Valid : Doc → Prop
+  | .node p k subs => p.Lang (names (ordered p k)) ∧ Doc.ValidL subs
+def Doc.ValidL : List Doc → Prop
+  | [] => True
+  | d :: ds => d.Valid ∧ Doc.ValidL ds
+end
+
+mutual
+theorem C01_tree : (d : Doc) → d.Good → d.checks = true → d.Valid
+  | .node p k subs, hg, hc => by
+    simp only [Doc.Good] at hg
+    simp only [Doc.checks, Bool.and_eq_true, beq_iff_eq] at hc
+    exact ⟨C01_tame p hg.1 k hg.2.1 hc.1, C01_treeL subs hg.2.2 hc.2⟩
+theorem C01_treeL : (ds : List Doc) → Doc.GoodL ds → Doc.checksL ds = true → Doc.ValidL ds
+  | [], _, _ => trivial
+  | d :: ds, hg, hc => by
+    simp only [Doc.GoodL] at hg
+    simp only [Doc.checksL, Bool.and_eq_true] at hc
+    exact ⟨C01_tree d hg.1 hc.1, C01_treeL ds hg.2 hc.2⟩
+end
+end C01
+
+#print axioms C01.C01_tree
